@@ -96,7 +96,9 @@ def sample_points(rng, old):
             # just inside the middle of each old side
             pts.append(((mx + 1e-3 * (cx - mx), my + 1e-3 * (cy - my)), name))
             pts.append(((a[0] + 1e-3 * (cx - a[0]), a[1] + 1e-3 * (cy - a[1])), name))     # just inside each old corner
-    return pts
+    # (a shipped geometry has a few non-convex columns: keep only points that really are in their column)
+    by = dict((n, p) for n, p, s in old)
+    return [(pt, name) for pt, name in pts if PG.inside(pt, by[name])]
 
 
 def check_after(ctx, geo, before, op, case, label, layers_only=False):
